@@ -149,3 +149,11 @@ WHOLE_PARTITION_AGGREGATORS = {"all", "any", "any_value", "count", "max", "mean"
 # numpy / pandas comparisons never return a missing value: with a NaN (missing) operand == < <= > >= give False and != gives True.
 # SQL comparisons are three-valued: any NULL operand gives NULL (which select_rows / WHERE treats as "not true", and NOT NULL is NULL).
 PANDAS_COMPARISON_ON_NULL = {"==": False, "!=": True, "<": False, "<=": False, ">": False, ">=": False}
+
+
+# forms of SQL *syntax* whose meaning differs from the catalogued meaning.  (dialect, operator) -> (regex over the folded template, regex that lifts it, why)
+SQL_TEMPLATE_CAVEATS = {
+    ("PostgreSQLModel", "as_int64"): (r"CAST\(.* AS (BIGINT|INTEGER|INT)\)", r"TRUNC\(|FLOOR\(",
+                                      "PostgreSQL rounds to nearest when casting a float to an integer type (CAST(2.7 AS BIGINT) = 3, documentation 8.1 / "
+                                      "numeric-to-integer casts round); the catalogued meaning, numpy astype(int64), truncates (2): wrap the argument in TRUNC()"),
+}
